@@ -124,6 +124,15 @@ def run_case(case, ctx):
     if integer:
         full = np.round(full)       # handed over as an integer-typed series below
         ctx.tag("input:integer-series")
+    # history before the training start (positions -B .. -1), for stretches that begin earlier than the training series
+    B = 3 * max(cfg[1].get("sp", cfg[2][1].get("sp", 4) if len(cfg) > 2 else 4), 2) + 6
+    tb = np.arange(-B, 0)
+    before = 60 + 0.5 * tb + 6 * np.sin(2 * np.pi * tb / max(cfg[1].get("sp", 4), 2)) + 2 * np.cos(2 * np.pi * tb / 5) + rng.normal(0, 1.0, size=B)
+    if case.get("flat"):
+        before = 60 + rng.normal(0, 1.0, size=B)
+    if integer:
+        before = np.round(before)
+    fullx = np.concatenate([before, full])
     y = _mk(full[:n], 0, case["idx"], off)
     frame = bool(case.get("frame")) and kind in FRAME_OK
     # multivariate series: two columns over the same time index (the second an affine image of the first)
@@ -172,19 +181,26 @@ def run_case(case, ctx):
         pos = lo + size
     # ---- the stretch -----------------------------------------------------------------------------------------
     a, b = case["a"], case["b"]
+    early = case["dseed"] % 4 == 1 and kind in ("deseason", "cdeseason", "boxcox", "log", "scaler", "optional", "cos")
+    if early:
+        # the stretch starts before the training series (applying a transformer fitted on a recent window to the longer history)
+        a = -int(rng.integers(1, B + 1))
+        b = a + max(b - case["a"], 3)
+        ctx.tag("stretch:starts-before-training")
     positions = list(range(a, b))
     if case["gapped"] and len(positions) > 4:
         positions = [p for p in positions if (p - a) % 3 != 1]
-    z = _mk(full[positions], a, case["idx"], off, positions=positions if case["gapped"] else None)
+    V = (lambda ps: fullx[np.asarray(ps) + B]) if early else (lambda ps: full[ps])
+    z = _mk(V(positions), a, case["idx"], off, positions=positions if case["gapped"] else None)
     stride = case.get("stride", 1)
     if stride > 1 and not case["gapped"] and (b - a) > 2 * stride:
         # regularly strided stretch, e.g. z.iloc[::2]: a RangeIndex with step > 1 (or the same labels as a plain Index)
         positions = list(range(a, b, stride))
         idx = pd.RangeIndex(off + a, off + b, stride) if case["idx"] == "range" else pd.Index(off + np.asarray(positions))
-        z = pd.Series(full[positions], index=idx)
+        z = pd.Series(V(positions), index=idx)
     acf_like = kind in ("acf", "pacf")
     if kind in ("hampel", "acf", "pacf", "imputer", "detrend_naive") and (case["gapped"] or len(positions) != b - a):
-        z = _mk(full[a:b], a, case["idx"], off)     # these work on positions of a gap-free series
+        z = _mk(V(list(range(a, b))), a, case["idx"], off)     # these work on positions of a gap-free series
         positions = list(range(a, b))
     zser = z
     z = W(z)
